@@ -156,8 +156,12 @@ Definition format_method_signature (name : string) (s : sig) : string :=
    else if Nat.ltb 1 (List.length (s_results s)) then " (" ++ outs ++ ")" else " " ++ outs).
 
 (* the type table of a package: what LoadInterfaces / LoadTypes can find *)
-Record imethod := { im_name : string; im_sig : sig }.
-Record tmethod := { tm_name : string; tm_sig : sig; tm_value : bool }.     (* tm_value: in the method set of T itself *)
+(* im_pkg / tm_pkg: the package an UNEXPORTED method name belongs to ("" for an exported name): Go identifies a method by
+   (that package, name) - types.Id *)
+Record imethod := { im_name : string; im_sig : sig; im_pkg : string }.
+Record tmethod := { tm_name : string; tm_sig : sig; tm_value : bool; tm_pkg : string }.     (* tm_value: in the method set of T itself *)
+Definition tm_id (m : tmethod) : string * string := (tm_pkg m, tm_name m).
+Definition im_id (m : imethod) : string * string := (im_pkg m, im_name m).
 Record iface_decl := { id_pkg : string; id_name : string; id_methods : list imethod }.
 Record type_decl := { td_name : string; td_methods : list tmethod }.       (* method set of *T, as types.NewMethodSet lists it *)
 Record typetable := { tt_ifaces : list iface_decl; tt_types : list type_decl }.
